@@ -2,11 +2,13 @@ package ypm
 
 import (
 	"fmt"
+	"os"
 	"regexp"
 	"runtime"
 	"strconv"
 	"strings"
 	"sync"
+	"syscall"
 	"time"
 
 	"github.com/sdcio/yang-parser/parse"
@@ -40,26 +42,109 @@ type Outcome struct {
 	Line     int
 	Col      int
 	NLexers  int
-	Overflow bool // more than maxEvents channel events: the rest was not recorded
+	Overflow bool   // more than maxEvents channel events: the rest was not recorded
+	Why      string // what a time-dependent verdict (hang, goroutine left) rests on
 	PanicVal string
 }
 
 var locRe = regexp.MustCompile(`(?:^|[ :])` + regexp.QuoteMeta(InputName) + `:(\d+):(\d+)(?::|$)`)
 
-func lexerGoroutines() int {
+// Limits are the wall-clock limits behind the verdicts "hang", "lexer goroutine left" and "no exit
+// event".  The normal limits only raise a suspicion: a starved goroutine on a loaded machine can
+// exceed them on correct code.  Every suspect case is run again alone (Solo: one fresh worker process per
+// case, nothing else of the harness running) with limits ten times larger, and only what shows again
+// there is reported.  Two observations that do not depend on the clock end the waiting early, in
+// either mode: a goroutine that is *blocked* (channel operation, select, lock) in several consecutive
+// dumps while no goroutine of the call is runnable cannot be a starved one, and a call that has burnt
+// seconds of CPU time on a text of a few kilobytes is spinning, however slow the machine is.
+type Limits struct {
+	Watchdog time.Duration // Parse has not returned
+	Grace    time.Duration // after the return: lexer exit event / lexer goroutine still there
+	Silent   time.Duration // (pool) a worker that says nothing at all
+	Solo     bool
+}
+
+var (
+	NormalLimits = Limits{Watchdog: 2 * time.Second, Grace: 250 * time.Millisecond, Silent: 10 * time.Second}
+	SoloLimits   = Limits{Watchdog: 20 * time.Second, Grace: 5 * time.Second, Silent: 90 * time.Second, Solo: true}
+)
+
+// CurrentLimits: solo mode is handed to the workers through the environment.
+func CurrentLimits() Limits {
+	if os.Getenv("YP_SOLO") != "" {
+		return SoloLimits
+	}
+	return NormalLimits
+}
+
+const spinCPU = 3 * time.Second // CPU time no parse of a test text comes near
+
+func cpuTime() time.Duration {
+	var ru syscall.Rusage
+	if syscall.Getrusage(syscall.RUSAGE_SELF, &ru) != nil {
+		return 0
+	}
+	return time.Duration(ru.Utime.Nano() + ru.Stime.Nano())
+}
+
+// census of the goroutines of the call under test in a dump: lexer goroutines, the goroutine inside
+// parse.Parse, and how many of each are blocked (not running, not runnable)
+type census struct {
+	lexers, lexersBlocked   int
+	parsers, parsersBlocked int
+}
+
+func isBlockedState(st string) bool {
+	for _, p := range []string{"chan send", "chan receive", "select", "semacquire", "sync."} {
+		if strings.HasPrefix(st, p) {
+			return true
+		}
+	}
+	return false
+}
+
+func takeCensus() census {
 	buf := make([]byte, 1<<16)
 	for {
 		n := runtime.Stack(buf, true)
 		if n < len(buf) {
-			return strings.Count(string(buf[:n]), "parse.(*lexer).run")
+			buf = buf[:n]
+			break
 		}
 		buf = make([]byte, 2*len(buf))
 	}
+	var c census
+	for _, blk := range strings.Split(string(buf), "\n\n") {
+		if !strings.HasPrefix(blk, "goroutine ") {
+			continue
+		}
+		st := ""
+		if i := strings.Index(blk, "["); i >= 0 {
+			if j := strings.IndexAny(blk[i:], ",]"); j > 0 {
+				st = blk[i+1 : i+j]
+			}
+		}
+		switch {
+		case strings.Contains(blk, "parse.(*lexer).run"):
+			c.lexers++
+			if isBlockedState(st) {
+				c.lexersBlocked++
+			}
+		case strings.Contains(blk, "parse.ParseWithInterners") || strings.Contains(blk, "parse.Parse("):
+			c.parsers++
+			if isBlockedState(st) {
+				c.parsersBlocked++
+			}
+		}
+	}
+	return c
 }
+
+func lexerGoroutines() int { return takeCensus().lexers }
 
 // Guarded runs parse.Parse under a watchdog, with a panic trap, a check for lexer
 // goroutines left behind and (with hooks) the channel events of the call.
-func Guarded(text string, watchdog time.Duration, wantEvents bool) Outcome {
+func Guarded(text string, lim Limits, wantEvents bool) Outcome {
 	var o Outcome
 	var mu sync.Mutex
 	var events []LexEvent
@@ -100,19 +185,39 @@ func Guarded(text string, watchdog time.Duration, wantEvents bool) Outcome {
 		}()
 		r.t, r.err = parse.Parse(InputName, text, nil)
 	}()
-	select {
-	case r := <-ch:
-		switch {
-		case r.pv != nil:
-			o.Ret, o.PanicVal = "panic", fmt.Sprint(r.pv)
-		case r.err != nil:
-			o.Ret, o.Err = "err", r.err.Error()
-		default:
-			o.Ret = "ok"
+	cpu0 := cpuTime()
+	start := time.Now()
+	var got *res
+	stuck := 0 // consecutive dumps in which everything of the call was blocked
+	tick := time.NewTicker(100 * time.Millisecond)
+	defer tick.Stop()
+wait:
+	for {
+		select {
+		case r := <-ch:
+			got = &r
+			break wait
+		case <-tick.C:
+			if time.Since(start) > lim.Watchdog {
+				o.Why = fmt.Sprintf("no return within %v", lim.Watchdog)
+				break wait
+			}
+			if cpuTime()-cpu0 > spinCPU {
+				o.Why = fmt.Sprintf("no return after %v of CPU time: spinning", spinCPU)
+				break wait
+			}
+			if c := takeCensus(); c.parsers > 0 && c.parsersBlocked == c.parsers && c.lexersBlocked == c.lexers {
+				// (a leftover lexer of an earlier call in this process is blocked for good and counts as such)
+				if stuck++; stuck >= 5 {
+					o.Why = "no return: the parser and every lexer goroutine are blocked"
+					break wait
+				}
+			} else {
+				stuck = 0
+			}
 		}
-		o.Tree = r.t
-		o.Root = r.t != nil && r.t.Root != nil
-	case <-time.After(watchdog):
+	}
+	if got == nil {
 		o.Ret = "hang"
 		mu.Lock()
 		if len(events) > 300 { // a spinning lexer emits without end: the beginning is enough to place the hang
@@ -122,21 +227,49 @@ func Guarded(text string, watchdog time.Duration, wantEvents bool) Outcome {
 		mu.Unlock()
 		return o
 	}
-	if wantEvents && InstallTracer != nil {
-		select {
-		case <-exitSeen:
-			o.Exited = true
-		case <-time.After(250 * time.Millisecond):
-		}
+	switch {
+	case got.pv != nil:
+		o.Ret, o.PanicVal = "panic", fmt.Sprint(got.pv)
+	case got.err != nil:
+		o.Ret, o.Err = "err", got.err.Error()
+	default:
+		o.Ret = "ok"
 	}
-	// goroutines: poll briefly so that a lexer that is just returning is not counted
-	deadline := time.Now().Add(250 * time.Millisecond)
+	o.Tree = got.t
+	o.Root = got.t != nil && got.t.Root != nil
+	// after the return: the lexer's exit event (with hooks) and its goroutine.  A lexer that is just
+	// returning is waited for (Grace); one that is blocked in three dumps in a row will never go.
+	tracing := wantEvents && InstallTracer != nil
+	deadline := time.Now().Add(lim.Grace)
+	blocked := 0
 	for {
-		o.Leak = lexerGoroutines() - before
-		if o.Leak <= 0 || time.Now().After(deadline) {
+		if tracing && !o.Exited {
+			select {
+			case <-exitSeen:
+				o.Exited = true
+			default:
+			}
+		}
+		c := takeCensus()
+		o.Leak = c.lexers - before
+		if o.Leak <= 0 && (o.Exited || !tracing) {
 			break
 		}
-		time.Sleep(200 * time.Microsecond)
+		if o.Leak > 0 && c.lexersBlocked >= c.lexers {
+			if blocked++; blocked >= 3 {
+				o.Why = "lexer goroutine blocked after the return"
+				break
+			}
+		} else {
+			blocked = 0
+		}
+		if time.Now().After(deadline) {
+			if o.Leak > 0 {
+				o.Why = fmt.Sprintf("lexer goroutine still there %v after the return", lim.Grace)
+			}
+			break
+		}
+		time.Sleep(2 * time.Millisecond)
 	}
 	if o.Leak < 0 {
 		o.Leak = 0
